@@ -171,6 +171,56 @@ fn run<C: CI>(ctx: &mut Ctx) {
         }
     });
 
+    // ------------------------------------------------------------ exact-fit: nothing after the window
+    // The windows above sit inside a larger parent, so "one past the end" is still inside the buffer.  Here the
+    // window is the tail of an allocation without spare words (whole-word lengths, aligned / unaligned starts):
+    // reading the last symbols must not touch anything after them, and every out-of-bounds form has to be refused
+    // *before* any access (Miri / ASan / memcheck see an access past the allocation even when the value is right).
+    ctx.group(&format!("{name}/exact-fit"), |ctx| {
+        let mut cases = exact_fit_cases_for(ctx, a.bits);
+        if ctx.lite {
+            cases.truncate(3); // a few cases per run under the sanitizers' budgets; which ones depends on shard and seed
+        }
+        for (len, pad) in cases {
+            let _fit = exact_fit_mode();
+            let codes = cover_codes(&mut ctx.rng, a, len);
+            let p = Padded::<C>::new(&mut ctx.rng, pad, &codes, 0);
+            let win = p.slice();
+            let what = format!("{name} exact-fit window len {len} at symbol {pad} of a parent of {} symbols", pad + len);
+            ctx.eval();
+            // the last symbols through every accessor, the full range and the suffixes
+            for back in 1..=len.min(5) {
+                let i = len - back;
+                let r = observe(|| (win.nth(i).to_bits(), win.get(i).map(|x| x.to_bits()), u8::from(&win[i]), win[i..].len(), win.iter().nth(i).map(|x| x.to_bits()), win.rev_iter().nth(back - 1).map(|x| x.to_bits())));
+                check!(ctx, r == Ok((codes[i], Some(codes[i]), codes[i], back, Some(codes[i]), Some(codes[i]))), format!("nth/get|{name}|exact-fit-last-symbols"), "{what}: symbol {i} through nth/get/[i]/iter = {:?}, want code {}", r, codes[i]);
+            }
+            verify::<C>(ctx, &win[..], &codes, &what, true);
+            if len > 1 {
+                verify::<C>(ctx, &win[1..], &codes[1..], &what, true);
+                verify::<C>(ctx, &win[len - 1..], &codes[len - 1..], &what, true);
+                verify::<C>(ctx, &win[..len - 1], &codes[..len - 1], &what, true);
+            }
+            verify::<C>(ctx, &win[len..], &[], &what, true);
+            // the same on the owned parent (Seq receiver)
+            let all: Vec<u8> = codes_of::<C>(&p.parent);
+            verify::<C>(ctx, &p.parent[pad..], &codes, &what, true);
+            check!(ctx, all.len() == pad + len && all[pad..] == codes[..], format!("index|{name}|exact-fit-parent"), "{what}: parent reads back {:?}", all);
+            if ctx.lite {
+                // the nearest out-of-bounds forms only (each refusal is an unwinding panic: slow under Miri)
+                for (form, r) in [("[i]", observe(|| win[len].len())), ("..b", observe(|| win[..len + 1].len())), ("a..", observe(|| win[len + 1..].len())), ("nth", observe(|| { let _ = win.nth(len); 1 }))] {
+                    ctx.eval();
+                    check!(ctx, r.is_err(), format!("index-oob|{name}|{form}|returns-slice"), "{what}: out-of-bounds {form} one past the end returned {:?} instead of panicking", r);
+                }
+                check!(ctx, win.get(len).is_none() && p.parent.get(pad + len).is_none(), format!("get-oob|{name}|returns-symbol"), "{what}: get one past the end returned a symbol");
+            } else {
+                refusals::<C>(ctx, win, len, &what);
+                refusals::<C>(ctx, &p.parent, pad + len, &what);
+            }
+            cell!(ctx, "{name}/exact-fit/{}/pad{}", len_class(a.bits, len), if pad == 0 { "0" } else if (pad * a.bits as usize) % 64 == 0 { "word" } else { "unaligned" });
+            ctx.nontrivial(fp(&[b"xf", name.as_bytes(), &codes, &[pad as u8]]));
+        }
+    });
+
     // ------------------------------------------------------------ Seq receiver and static literals
     ctx.group(&format!("{name}/owned-receiver"), |ctx| {
         let lens = if ctx.lite { vec![pw + 1] } else { boundary_lengths(a.bits, 2) };
@@ -295,6 +345,22 @@ fn statics(ctx: &mut Ctx) {
 
 fn main() {
     run_main("C03", |ctx| {
+        ctx.first_use_race(3, |t| {
+            let d: Seq<Dna> = "ACGTTGCAACGTACGTACGTACGTACGTACGTTTGA".try_into().unwrap();
+            let i: Seq<Iupac> = "ACGTRYSWKMBDHVN-ACGT".try_into().unwrap();
+            let m: Seq<Amino> = "MAGICLIFEQRSTVWY*".try_into().unwrap();
+            let k = 1 + t;
+            (
+                d[k..k + 20].to_string(),
+                d.nth(k).to_bits(),
+                d.get(100).is_none(),
+                i[k..].to_string(),
+                i[..=k].to_string(),
+                u8::from(&i[k]),
+                m[k..k + 9].to_string(),
+                m.get(k).map(|x| x.to_bits()),
+            )
+        });
         for_each_codec!(run, ctx);
         statics(ctx);
         ctx.note("rule", json!("per codec: windows of every boundary length class (0..2.5 words) placed at varying (thorough: all) achievable bit offsets inside a larger parent; for each, ALL (a,b) with 0<=a<=b<=len through every range form able to express them (a..b, a..=b, ..b, ..=b, a.., .., [i]) plus nth/get; every out-of-bounds form with b in {len+1, len+2, len+symbols-per-word} and with far indices (usize::MAX, usize::MAX/BITS(+1), 2^63(+1), 2^62+2, ... whose bit position overflows) must panic (get -> None); random nested re-slicing of depth 2-3; owned receivers and static literals. Distinct = (codec, form, head bit, a, b, len) resp. (codec, content, nesting trail); all non-trivial."));
